@@ -2,6 +2,11 @@
 
 package pub
 
+import (
+	"net/url"
+	"servitor/object"
+)
+
 /* Verification shim (scratch copy only): dumps the provenance-relevant fields of items. */
 
 func verifStr(s string, err error) any {
@@ -186,4 +191,9 @@ func VerifFailureMessage(f *Failure) string {
 		return t
 	}
 	return ""
+}
+
+/* the collection an owner names under `key`, through the constructor path the owners use */
+func VerifGetCollection(o object.Object, key string, source *url.URL, construct func(any, *url.URL) Tangible) (*Collection, error) {
+	return getCollection(o, key, source, construct)
 }
